@@ -17,7 +17,7 @@
                               same set of run-time values (nil aside).
    Proofs live in Types/OpTable.v and Types/CompatProofs.v. *)
 From Coq Require Import List NArith.
-From MS Require Import Types.OpTable Types.Compat Types.CompatProofs Types.CompatLit.
+From MS Require Import Types.OpTable Types.Compat Types.CompatProofs Types.CompatLit Types.Core0.
 Import ListNotations.
 
 (* (a) the whole domain: 25 binary operators x 6 x 6 kinds *)
@@ -74,6 +74,23 @@ Theorem C02_eq_complex_literal_swapped : forall fuel f u t,
   exists u', inst u u' /\ clean u' = true /\ skel u' = skel t.
 Proof. exact eq_complex_literal_swapped. Qed.
 Print Assumptions C02_eq_complex_literal_swapped.
+
+(* (c) PARTIAL: the full statement above, for the fragment Core-0 only -- native kinds; literals, variables, all
+   25 binary and both prefix operators at any depth; declaration, re-binding, `x op= e`, if / else, while, print;
+   checker = Core0.check (expression types from the operator tables, conditions bool, a variable keeps its kind,
+   block-local declarations), execution = kind-level run with the run-time tables, an arbitrary branch oracle and
+   fuel.  MISSING: lists, maps, optionals, functions / closures, classes, aliases, `from` loops, and the link
+   from Core0.check to the real compiler other than through the table tie (a) -- those are search (generator). *)
+Check core0_sound : forall fuel ss g g' r oracle,
+  check_list g ss = Some g' -> agrees g r ->
+  exec_list fuel oracle r ss <> TypeError /\
+  (forall r' o', exec_list fuel oracle r ss = Done r' o' -> agrees g' r').
+Theorem C02_type_soundness_partial : forall fuel ss g g' r oracle,
+  check_list g ss = Some g' -> agrees g r ->
+  exec_list fuel oracle r ss <> TypeError /\
+  (forall r' o', exec_list fuel oracle r ss = Done r' o' -> agrees g' r').
+Proof. exact core0_sound. Qed.
+Print Assumptions C02_type_soundness_partial.
 
 (* the model never runs out of fuel on the theorem's domain: the conclusion is not vacuous *)
 Check cmp_fuel : forall fixed n md t u,
